@@ -105,6 +105,48 @@ async def run_word(version, word, where, cbs=None):
     return out
 
 
+async def run_word_real(version, word):
+    """the same feeds through the REAL command layer (EZSP + the version's protocol handler) over a gateway stub: outcome `o` = the
+    NCP answers at once, `a` = the frame is never acknowledged - `send_data` raises the timeout of the ASH layer, as
+    AshProtocol.send_data does after its last retransmission.  A failed feed like any other."""
+    import bellows.ezsp as ezsp
+    from bellows.exception import EzspError
+    from harness import ezsplib
+
+    app = shim.make_app()
+    e = ezsp.EZSP({"path": "/dev/null"})
+    state = {"plan": "o"}
+
+    class Gw:
+        async def send_data(self, data):
+            if state["plan"] == "a":
+                raise asyncio.TimeoutError()
+            d = bytes(data)
+            seq = d[0]
+            cid = d[2] if version < 5 else d[4] if version < 8 else d[3] | d[4] << 8
+            name, _tx, rx = e._protocol.COMMANDS_BY_ID[cid]
+            fields = ezsplib.schema_fields(rx)
+            body = b"".join(ezsplib.gen(dd, None, "zero", i == len(fields) - 1)[1] for i, (_, _, dd) in enumerate(fields))
+            asyncio.get_running_loop().call_soon(e.frame_received, ezsplib.spec_header(version, seq, cid) + body)
+
+    hv = min(version, 14)
+    e._gw = Gw()
+    e._protocol = ezsp.EZSP._BY_VERSION[hv](e.handle_callback, e._gw)
+    e._ezsp_version = version
+    e.start_ezsp()
+    app._ezsp = e
+    out = []
+    for o in word:
+        state["plan"] = o
+        try:
+            await app._watchdog_feed()
+            raised = "0"
+        except (asyncio.TimeoutError, Exception) as x:  # noqa: BLE001
+            raised = "1" if isinstance(x, (asyncio.TimeoutError, EzspError)) else f"X{type(x).__name__}"
+        out.append(raised)
+    return out
+
+
 def oracle(version, word, got, maxf, period):
     run = 0
     n = 0
@@ -181,6 +223,26 @@ def run(ctx):
     wheres = []
 
     impl = asyncio.run(all_impl())
+    # the real command layer under the feed: a keep-alive whose frame is never acknowledged (the timeout comes out of send_data)
+    async def real_words():
+        res = []
+        for version in (4, 8, 13, 14):
+            for w in ("a", "oa", "aaaa", "aaaaa", "aaaaoaaaaa", "aoaoaoaoa"):
+                res.append((version, w, await run_word_real(version, w)))
+        return res
+
+    for version, w, got in asyncio.run(real_words()):
+        ctx.cov["evaluations"] += 1
+        ctx.count("real-command-layer-words")
+        run_ = 0
+        for k, (o, g) in enumerate(zip(w, got)):
+            run_ = run_ + 1 if o == "a" else 0
+            want = "1" if (o == "a" and run_ > maxf) else "0"
+            if g != want:
+                ctx.violation(f"feed {k} of word {w!r} (v{version}) through the real command layer (a = the keep-alive's frame is never acknowledged, send_data raises "
+                              f"the link's timeout): raised={g}, expected {want} (run of {run_} consecutive failures, tolerated {maxf})",
+                              {"kind": "real-layer", "version": version}, {"kind": "real-layer", "version": version, "word": w})
+                break
     # feeds whose commands are answered late - 8 s each, inside the command timeout, 16 s for a feed of two commands: successful
     # feeds like any other (they clear the run of failures, they never raise); on the virtual clock
     from harness import vloop
@@ -243,6 +305,19 @@ def replay(ctx, obj):
     import bellows.zigbee.application as app_mod
 
     r = obj["replay"]
+    if r.get("kind") == "real-layer":
+        maxf = app_mod.MAX_WATCHDOG_FAILURES
+        got = asyncio.run(run_word_real(r["version"], r["word"]))
+        run_, bad = 0, None
+        for k, (o, g) in enumerate(zip(r["word"], got)):
+            run_ = run_ + 1 if o == "a" else 0
+            if g != ("1" if (o == "a" and run_ > maxf) else "0"):
+                bad = f"feed {k}: raised={g}"
+                break
+        print(f"replay real command layer: v{r['version']} word {r['word']}: {got}: {'FAILS: ' + bad if bad else 'ok'}")
+        if bad:
+            print(f"VIOLATION property={ctx.pid} replay=replay")
+        return 1 if bad else 0
     got = asyncio.run(run_word(r["version"], r["word"], r.get("where") or [0] * len(r["word"]), r.get("callbacks")))
     bad = oracle(r["version"], r["word"], got, app_mod.MAX_WATCHDOG_FAILURES, app_mod.EZSP_COUNTERS_CLEAR_IN_WATCHDOG_PERIODS)
     print(f"replay: v{r['version']} word {r['word']}: {got}: {'FAILS: ' + bad[1] if bad else 'ok'}")
